@@ -193,9 +193,9 @@ def solve_sat(
 
     def unassign_to(level):
         nonlocal prop_head
+        target = trail_lim[level] if len(trail_lim) > level else len(trail)
         while len(trail_lim) > level:
             trail_lim.pop()
-        target = trail_lim[-1] if trail_lim else 0
         while len(trail) > target:
             var = trail.pop()
             phase[var] = vals[var] == 1
@@ -405,7 +405,8 @@ def solve_sat(
             add_watch(clause[0], i)
             add_watch(clause[1], i)
 
-    for var, val in find_pure_literals():
+    # Pure literals preserve satisfiability, not the set of models: only when a single model is wanted.
+    for var, val in find_pure_literals() if solution_limit == 1 else ():
         if vals[var] == UNDEF:
             assign(var, val, -1)
 
@@ -508,6 +509,11 @@ def solve_sat(
                 return Result(sol, len(sol), decisions, propagations, solutions=tuple(all_solutions))
 
             blocking = [(-v if vals[v] == 1 else v) for v in range(1, n_vars + 1) if vals[v] != UNDEF]
+            # Literals fixed at level 0 stay false after the restart below, so the watches must sit on the others.
+            blocking.sort(key=lambda lit: levels[lit_var(lit)] == 0)
+            n_free = sum(1 for lit in blocking if levels[lit_var(lit)] > 0)
+            if n_free == 0:
+                return Result(sol, len(sol), decisions, propagations, solutions=tuple(all_solutions))
             clause_idx = len(clauses) + len(learned)
             learned.append(blocking)
             lbd_scores.append(n_vars)
@@ -522,6 +528,8 @@ def solve_sat(
 
             unassign_to(0)
             dec_level = 0
+            if n_free == 1:
+                assign(lit_var(blocking[0]), blocking[0] > 0, clause_idx)
             conflict = propagate()
             continue
 
